@@ -28,7 +28,8 @@ def main():
     d = tempfile.mkdtemp(prefix="nfcov-")
     try:
         shutil.copytree(os.path.join(ROOT, "harness"), os.path.join(d, "harness"), ignore=shutil.ignore_patterns("target"))
-        env = dict(os.environ, RUSTFLAGS="-C instrument-coverage", CARGO_NET_OFFLINE="true", CARGO_TARGET_DIR=os.path.join(d, "target"))
+        env = dict(os.environ, RUSTFLAGS="-C instrument-coverage", CARGO_NET_OFFLINE="true", CARGO_TARGET_DIR=os.path.join(d, "target"),
+                   LLVM_PROFILE_FILE=os.path.join(d, "build-%p.profraw.ignore"))   # proc macros and build scripts are instrumented too
         p = subprocess.run(["cargo", "+nightly", "build", "--offline"], cwd=os.path.join(d, "harness"), env=env,
                            stdout=subprocess.PIPE, stderr=subprocess.STDOUT)
         if p.returncode != 0:
